@@ -6,7 +6,7 @@ from concurrent.futures import ThreadPoolExecutor
 
 from . import common, tlc
 
-STRIP = ("rawout", "text", "raisedtype")
+STRIP = ("rawout", "text", "raisedtype", "ops")
 ALL_PROJ = ["exc", "out", "cb", "tree", "trans", "ota", "jobs", "disk", "dirty"]
 
 
